@@ -31,22 +31,38 @@ TIMEOUT = 900
 
 
 def cases(tier, seed):
-    forms = ["bare", "attr", "alias", "wrapped", "pkginit", "initroot", "chain", "pinned", "lambda", "factory", "xdeco", "nestedlocal", "prefix", "lrucache"]
+    forms = ["bare", "attr", "alias", "wrapped", "pkginit", "initroot", "chain", "pinned", "lambda", "factory", "xdeco", "nestedlocal", "prefix", "lrucache", "declared"]
     for form in forms:
         edges = all_edges(3, form)
         graphs = [(kinds, mask) for kinds in itertools.product(["memento", "plain"], repeat=2)
                   for mask in range(1 << len(edges))]
-        if tier == "quick" and form in ("lambda", "factory", "xdeco", "nestedlocal", "prefix", "lrucache"):  # quick: these forms without self-loops
+        if tier == "quick" and form in ("lambda", "factory", "xdeco", "nestedlocal", "prefix", "lrucache", "declared"):  # quick: these forms without self-loops
             loops = sum(1 << i for i, (u, v) in enumerate(edges) if u == v)
             graphs = [(kinds, mask) for kinds, mask in graphs if not mask & loops]
         for i in range(0, len(graphs), 64):
             yield {"kind": "small", "n": 3, "form": form, "graphs": graphs[i:i + 64]}
+    edges = all_edges(4, "bare4")
     if tier == "thorough":
-        edges = all_edges(4, "bare4")
         graphs = [(kinds, mask) for kinds in itertools.product(["memento", "plain"], repeat=3)
                   for mask in range(1 << len(edges))]
-        for i in range(0, len(graphs), 128):
-            yield {"kind": "small", "n": 4, "form": "bare4", "graphs": graphs[i:i + 128]}
+        for form in ("bare4", "declared4"):
+            for i in range(0, len(graphs), 128):
+                yield {"kind": "small", "n": 4, "form": form, "graphs": graphs[i:i + 128]}
+    else:
+        # quick: four nodes as a seeded sample, plus the family "a plain helper shared by the root and by a memento
+        # function beneath it, with a memento function behind the helper" (the helper is met twice, on two levels)
+        rng = core.rng_for(seed, ID, "four")
+        bit = {e: 1 << i for i, e in enumerate(edges)}
+        base = bit[(0, 1)] | bit[(1, 2)] | bit[(2, 3)] | bit[(0, 2)]
+        aimed = [(("memento", "plain", "memento"), base | sum(bit[e] for e in extra))
+                 for k in range(4) for extra in itertools.combinations([(0, 3), (1, 3), (3, 1)], k)]
+        aimed += [(("memento", "plain", "plain"), base), (("plain", "plain", "memento"), base),
+                  (("memento", "memento", "plain"), bit[(0, 1)] | bit[(1, 3)] | bit[(0, 3)] | bit[(3, 2)] | bit[(0, 2)])]
+        for form in ("bare4", "declared4"):
+            graphs = aimed + [(tuple(rng.choice(["memento", "plain"]) for _ in range(3)), rng.randrange(1 << len(edges)))
+                              for _ in range(117)]
+            for i in range(0, len(graphs), 64):
+                yield {"kind": "small", "n": 4, "form": form, "graphs": graphs[i:i + 64]}
     for i in range(160 if tier == "quick" else 5000):
         yield {"kind": "random", "seed": seed, "idx": i}
     for i in range(12 if tier == "quick" else 60):
@@ -57,7 +73,7 @@ def all_edges(n, form):
     if form in ("attr", "pkginit", "initroot"):  # root lives in module b, the others in module a (which cannot name the root)
         # (pkginit: root in sub-module b, the others in the package's __init__.py; initroot: the other way round)
         return [(u, v) for u in range(n) for v in range(n) if not (u > 0 and v == 0)]
-    if form == "bare4":
+    if form in ("bare4", "declared4"):
         return [(u, v) for u in range(n) for v in range(n) if u != v]
     return [(u, v) for u in range(n) for v in range(n)]
 
@@ -83,12 +99,18 @@ def render_small(pkg, n, kinds, edges, form):
         texts["u"] = ["import functools", "", "def deco(fn):", "    @functools.wraps(fn)", "    def wrapper(*args, **kw):",
                       "        return fn(*args, **kw)", "    return wrapper"]
         texts["a"].insert(0, "from %s.u import deco" % pkg)
-    for u in range(n):
+    for u in (range(n - 1, -1, -1) if form == "declared" else range(n)):
         L = texts[mod_of(u)]
         plain_as = form if (kinds[u] != "memento" and form in ("lambda", "factory")) else None
         if kinds[u] == "memento":
             # (form 'pinned': every memento function but the root declares its version explicitly)
-            L.append("@m.memento_function" + ("(version=\"p%d\")" % u if form == "pinned" and u > 0 else ""))
+            deco = "(version=\"p%d\")" % u if form == "pinned" and u > 0 else ""
+            if form == "declared":
+                # the functions are defined last to first, and every memento function also declares the memento functions
+                # it names that exist by then (declared dependencies are collected before the detected ones)
+                decl = sorted({t for (s_, t) in edges if s_ == u and t > u and kinds[t] == "memento"})
+                deco = "(dependencies=[%s])" % ", ".join("n%d" % t for t in decl) if decl else ""
+            L.append("@m.memento_function" + deco)
         elif form == "wrapped":
             L += ["def deco_n%d(fn):" % u, "    @functools.wraps(fn)", "    def wrapper(*args, **kw):",
                   "        return fn(*args, **kw)", "    return wrapper", "", "@deco_n%d" % u]
@@ -222,7 +244,7 @@ def run_small(case, out, fail):
             edges = [e for i, e in enumerate(edges_all) if mask >> i & 1]
             want = oracle_small(n, kinds, edges)
             pkg = "vg%d_%s_%d" % (n, form, gi)
-            texts = render_small(pkg, n, kinds, edges, "bare" if form == "bare4" else form)
+            texts = render_small(pkg, n, kinds, edges, {"bare4": "bare", "declared4": "declared"}.get(form, form))
             try:
                 got = procs.in_child(small_child, {"pkg": pkg, "root": sc.path("g%d" % gi), "texts": texts,
                                                    "names": sorted(want), "form": form})
